@@ -732,7 +732,14 @@ def b_int(ip: Any, x: Any = 0, base: Any = 10) -> Any:
             raise Unsupported("int(str, base)")
         t = x.t
         if S.fork(SBool(is_ascii_int_literal(t))):
-            return SInt(z3.StrToInt(t))
+            r = z3.StrToInt(t)
+            # facts of decimal notation the string solvers do not derive on their own
+            S.assume(r >= 0)
+            nz = z3.Range(z3.StringVal("1"), z3.StringVal("9"))
+            dg = z3.Range(z3.StringVal("0"), z3.StringVal("9"))
+            canonical = z3.Union(z3.Re(z3.StringVal("0")), z3.Concat(nz, z3.Star(dg)))
+            S.assume(z3.Implies(z3.InRe(t, canonical), z3.IntToStr(r) == t))
+            return SInt(r)
         # outside the ASCII-digit core CPython may still parse (sign, whitespace, '_',
         # non-ASCII digits): uninterpreted, closed by native replay of every model
         if S.fork(SBool(PY_INT_OK(t))):
@@ -1306,6 +1313,7 @@ def encode_utf8(ip: Any, s: Any) -> SBytes:
     S.assume(z3.Length(r) >= z3.Length(t))
     S.assume((z3.Length(r) == 0) == (z3.Length(t) == 0))
     S.assume(z3.Contains(r, z3.StringVal("\x00")) == z3.Contains(t, z3.StringVal("\x00")))
+    S.assume(z3.InRe(r, ASCII_RE) == z3.InRe(t, ASCII_RE))
     return SBytes(r)
 
 
@@ -1322,11 +1330,17 @@ def decode_utf8(ip: Any, b: Any, errors: str = "strict") -> SStr:
         if not S.fork(SBool(z3.Or(z3.InRe(t, ASCII_RE), UTF8_OK(t)))):
             e = SExc(UnicodeDecodeError, ("utf-8", b, 0, 1, "invalid start byte"))
             raise ip.mkraise(e)
+    if errors != "strict":
+        # lenient error handlers (ignore/replace/...): ASCII maps to itself, anything else to *some* string
+        lenient = z3.Function(f"utf8_decode_{errors}", z3.StringSort(), z3.StringSort())
+        r = lenient(t)
+        S.assume(z3.Implies(z3.InRe(t, ASCII_RE), r == t))
+        return SStr(r)
     r = UTF8_DEC(t)
     S.assume(z3.Implies(z3.InRe(t, ASCII_RE), r == t))
-    if errors == "strict":
-        S.assume(UTF8_ENC(r) == t)
-        S.assume(z3.Length(r) <= z3.Length(t))
+    S.assume(z3.InRe(r, ASCII_RE) == z3.InRe(t, ASCII_RE))  # non-ASCII bytes decode to a non-ASCII string
+    S.assume(UTF8_ENC(r) == t)
+    S.assume(z3.Length(r) <= z3.Length(t))
     return SStr(r)
 
 
@@ -1682,6 +1696,14 @@ def call_concrete_method(ip: Any, recv: Any, name: str, bound: Any, args: list[A
         raise Unsupported(f"set.{name} with symbolic argument")
     if isinstance(recv, _struct.Struct):
         return struct_call(ip, name, recv.format, args)
+    import re as _re
+
+    if isinstance(recv, _re.Pattern) and name in ("match", "fullmatch", "search") and sym_args:
+        from . import regex
+
+        if len(args) != 1:
+            raise Unsupported("regex match with pos/endpos")
+        return regex.match_model(ip, recv, args[0], name)
     if sym_args and not isinstance(recv, (list, dict, tuple)):
         raise Unsupported(f"method {type(recv).__name__}.{name} called with symbolic arguments")
     return ip.native_call(bound, args, kwargs)
@@ -1907,6 +1929,26 @@ def _m_struct_unpack_from(ip: Any, fmt: str, data: Any, offset: Any = 0) -> Any:
 def _m_struct_calcsize(ip: Any, fmt: str) -> int:
     return _struct.calcsize(fmt)
 
+
+def _m_re(mode: str) -> Any:
+    def f(ip: Any, pattern: Any, s: Any, flags: int = 0) -> Any:
+        import re as _re
+
+        from . import regex
+
+        if V.contains_sym(pattern):
+            raise Unsupported("symbolic regex pattern")
+        p = pattern if isinstance(pattern, _re.Pattern) else _re.compile(pattern, flags)
+        if not V.contains_sym(s):
+            return getattr(p, mode)(s)
+        return regex.match_model(ip, p, s, mode)
+
+    return f
+
+
+import re as _re_mod
+
+EXTRA_MODELS.update({_re_mod.match: _m_re("match"), _re_mod.fullmatch: _m_re("fullmatch"), _re_mod.search: _m_re("search")})
 
 EXTRA_MODELS.update(
     {
